@@ -45,3 +45,19 @@ prop("C14",
      mode="unrolled: m in {1,2,3}, design spaces with 3 designs, index lists enumerated; Model.predict by interface contract",
      trusted_base=["z3 5.1.0", "interface contract: Model.predict(X (N,d)) -> means (N,m), covs (N,m,m)"],
      not_decided=["that each concrete model's predict meets the interface contract for N = 1 (see C15: GP models squeeze the sample axis)"])
+
+
+_SET = "set-level: S, P, U are arbitrary finite sets of design indices; regions and the answers of the region predicates are uninterpreted (every configuration); Auer: objectives unrolled m in {2,3}, centres/widths arbitrary reals"
+_SET_TB = ["z3 5.1.0", "cvc5 1.0.3",
+           "derived loop summaries of pyvc/setmode.py (search / accumulate schemas, inductive by construction; side conditions checked)",
+           "ghost iteration order of a set: stable while the set object is not mutated (CPython), unconstrained afterwards"]
+
+prop("C02",
+     level_text="The real discarding() of all seven elimination algorithms and the three compute_pessimistic_set() are symbolically executed over arbitrary finite sets and arbitrary predicate answers and proved to perform EXACTLY the certified elimination (set equality: only-if and if, same round), with the slack the property names, the witness set it names, and P/U untouched. Auer: each design's own displayed half-width, under the alignment precondition established in run_one_step (C06).",
+     mode=_SET, trusted_base=_SET_TB,
+     not_decided=["geometric meaning of the predicates (that is C09/C10/C11)", "Auer with m > 3 objectives"])
+
+prop("C03",
+     level_text="The real pareto_updating / epsiloncovering / useful_updating of all seven algorithms are proved to perform exactly the specified promotion (S' and P' as set equalities, P monotone, S and P disjoint, VOGP_AD's depth gate and latch), U exactly the members of P that can still cover a candidate; Auer's two-stage hold-back with each design's own width under the alignment precondition.",
+     mode=_SET, trusted_base=_SET_TB,
+     not_decided=["geometric meaning of the predicates (C10)", "Auer with m > 3 objectives"])
